@@ -108,6 +108,18 @@ theorem silent_tracks_eq_model (tracks : List (Option Nat)) :
   simp only [Gen.silent_tracks]
   omega
 
+/-- the same tie stated against the model's `allocProblem` itself (not a restated difference): for a state with a selected
+audioObject, the problem's `numSilent` is the translated `silent_tracks` of that object's track list and its non-`None`
+entries (`real_track_uids`). -/
+theorem silent_tracks_allocProblem (a : Adm.Adm) (st : Adm.State) (wps : List Adm.WPack) (p : List Nat)
+    (h : st.objPath = some p) :
+    (((Adm.allocProblem a st wps).1.numSilent : Nat) : Int) =
+      Gen.silent_tracks (a.obj (p.getLastD 0)).tracks ((a.obj (p.getLastD 0)).tracks.filterMap id) := by
+  rw [silent_tracks_eq_model]
+  simp only [Adm.allocProblem, h]
+
+example : ({ programme := none, content := none, objPath := some [0] } : Adm.State).objPath = some [0] := rfl
+
 theorem select_programme_eq_model (a : Adm.Adm) (given : Option Nat) :
     Gen.select_programme a.programmes given = Adm.selectProgramme a given := by
   unfold Gen.select_programme Adm.selectProgramme
